@@ -478,12 +478,29 @@ def run_check(pid, module, argv):
     if (disagreements or proof_problems) and not ctx.failures and not a.replay:
         for k in range(2):
             sctx = Ctx(pid, a.tier, a.seed * 1000 + k + 1, search=True)
+            # the search steps over inputs on which the code under check raises (it may raise on one input shape only,
+            # and return wrong answers on others): a raising case is counted and skipped
+            orig_do_case = module.do_case
+            raised = [0]
+            def tolerant(c, inp, *aa, _orig=orig_do_case, **kk):
+                try:
+                    return _orig(c, inp, *aa, **kk)
+                except (KeyboardInterrupt, SystemExit):
+                    raise
+                except Exception:
+                    raised[0] += 1
+                    c.tags["search-case-raised"] += 1
+                    if raised[0] > 2000:
+                        raise
+            module.do_case = tolerant
             try:
                 module.run(sctx)
             except (KeyboardInterrupt, SystemExit):
                 raise
             except Exception:
                 pass        # the search keeps whatever failures it saw before the code under check raised
+            finally:
+                module.do_case = orig_do_case
             search_evals += sctx.evaluations
             ctx.failures.extend(sctx.failures)
             if sctx.failures:
